@@ -26,7 +26,7 @@ for k in sorted(r,key=key):
     t+=f"| {k} | {kind} | {v['what'][:120].replace('|','/')} | {'/'.join(v['targets'])} | {status}{extra} | {det} |\n"
 n_app=sum(1 for v in r.values() if v['applied']); n_det=sum(1 for v in r.values() if v.get('detected_by'))
 n_seed=sum(1 for v in r.values() if v['kind']=='seeded'); n_seed_det=sum(1 for v in r.values() if v['kind']=='seeded' and v.get('detected_by'))
-head=f"**{n_seed_det} of {n_seed} seeded changes** (four rounds of independent sub-agents that saw only the property text (18 claimed properties x 4 rounds); rounds 2-4 were told what the earlier rounds had done and asked for a different, subtler mechanism - round 3 for one that needs an unusual-but-legal configuration to meet a specific history) and **{n_det} of {n_app} applicable changes overall** are reported with a replay by the quick tier at the default seed.\n\n"
+head=f"**{n_seed_det} of {n_seed} seeded changes** (five rounds of independent sub-agents that saw only the property text (18 claimed properties x 5 rounds); rounds 2-4 were told what the earlier rounds had done and asked for a different, subtler mechanism - round 3 for one that needs an unusual-but-legal configuration to meet a specific history; round 5, in a later session, gave each agent a preferred way for the change to manifest - two cooperating sites, a fault at one point of an exchange, an unusual configuration plus a sequence, an arrival order, state carried across a state change - and forbade reverting an earlier fix) and **{n_det} of {n_app} applicable changes overall** are reported with a replay by the quick tier at the default seed.\n\n"
 s=open('/verif/DESIGN.md').read()
 s=re.sub(r'<!-- SENS-BEGIN -->.*?<!-- SENS-END -->', '<!-- SENS-BEGIN -->\n'+head+t+'<!-- SENS-END -->', s, flags=re.S)
 open('/verif/DESIGN.md','w').write(s)
